@@ -138,6 +138,99 @@ impl Entry for i64 {
 }
 
 // =====================================================================================================
+// BigRational entries (src/geometry/traits.rs: `impl Entry for BigRational`).  num_rational::BigRational is an external type: it is
+// represented by a stand-in WITHOUT a value model -- `rz` ("is zero") is an uninterpreted predicate, every arithmetic operator is a total
+// function with an arbitrary result (division: the divisor must not be zero, as in num_rational), `abs` keeps `rz`, and the comparison of
+// absolute values is only known to be consistent with `rz`.  The operator sugar on references is emitted as named calls (R9).  What is
+// proved is again the ZERO STRUCTURE and the absence of shape panics, for every result the arithmetic might produce.
+// =====================================================================================================
+#[verifier::external_body]
+pub struct BigRational { _p: core::marker::PhantomData<()> }
+impl BigRational {
+    pub uninterp spec fn rz(&self) -> bool;
+    #[verifier::external_body]
+    pub fn zero() -> (r: Self) ensures r.rz() { unimplemented!() }
+    #[verifier::external_body]
+    pub fn is_zero(&self) -> (b: bool) ensures b == self.rz() { unimplemented!() }
+}
+// `x.abs() > y.abs()`: |x| > |y| >= 0 makes x non-zero, and a non-zero x beats a zero y
+#[verifier::external_body]
+pub fn __q_abs_gt(x: &BigRational, y: &BigRational) -> (r: bool)
+    ensures r ==> !x.rz(), (y.rz() && !x.rz()) ==> r
+{ unimplemented!() }
+#[verifier::external_body]
+pub fn __q_div(x: &BigRational, y: &BigRational) -> (r: BigRational)
+    requires !y.rz()          // num_rational panics on division by zero
+{ unimplemented!() }
+#[verifier::external_body]
+pub fn __q_mul(x: &BigRational, y: &BigRational) -> (r: BigRational) { unimplemented!() }
+#[verifier::external_body]
+pub fn __q_sub(x: &BigRational, y: &BigRational) -> (r: BigRational) { unimplemented!() }
+
+impl Entry for BigRational {
+    open spec fn zr(&self) -> bool { self.rz() }
+
+    //@ begin src/geometry/traits.rs :: impl Entry for BigRational :: fn pivot_row
+    //@ rw R16 /-> Option<usize>/-> (r: Option<usize>)/
+    //@ rw R9 /(a\[\(row, col\)\])\.abs\(\) > (a\[\(best_row, col\)\])\.abs\(\)/__q_abs_gt(&\1, &\2)/
+    fn pivot_row<M: Array2d<Self>>(col: usize, row0: usize, a: &M)
+        -> (r: Option<usize>)
+    {
+        proof { a.index_law(row0, col); a.read_law(); }
+        let mut best_row = row0;
+
+        for row in (row0 + 1)..a.nr_rows()
+            invariant a.wf(), row0 <= best_row < a.srows(), col < a.scols(), row0 < a.srows(),
+                a.at(best_row as int, col as int).zr() ==> forall|k: int| row0 <= k < row ==> (#[trigger] a.at(k, col as int)).zr(),
+        {
+            proof { a.index_law(row, col); a.index_law(best_row, col); a.read_law(); }
+            if __q_abs_gt(&a[(row, col)], &a[(best_row, col)]) {
+                best_row = row;
+            }
+        }
+
+        proof { a.index_law(best_row, col); a.read_law(); }
+        if a[(best_row, col)].is_zero() { None } else { Some(best_row) }
+    }
+    //@ end
+
+    //@ begin src/geometry/traits.rs :: impl Entry for BigRational :: fn clear_col
+    //@ rw R9 #&(a\[\(row1, col\)\]) / &(a\[\(row2, col\)\])#__q_div(&\1, &\2)#
+    //@ rw R9 /&(\w\[\(row1, k\)\]) - &(\w\[\(row2, k\)\]) \* &f/__q_sub(&\1, &__q_mul(&\2, &f))/
+    #[verifier::loop_isolation(false)]
+    fn clear_col<A: Array2d<Self>, B: Array2d<Self>>(
+        col: usize, row1: usize, row2: usize, a: &mut A, x: Option<&mut B>
+    )
+    {
+        proof { a.index_law(row1, col); a.index_law(row2, col); a.read_law(); A::write_law(); }
+        let ghost a0 = *a;
+        let f = __q_div(&a[(row1, col)], &a[(row2, col)]);
+        a[(row1, col)] = Self::zero();
+
+        for k in (col + 1)..a.nr_columns()
+            invariant same_shape(a0, *a), row1 < a0.srows(), row2 < a0.srows(), col < a0.scols(), row1 != row2,
+                a.at(row1 as int, col as int).zr(),
+                // only row1 changes, and only from `col` on
+                forall|i: int, l: int| 0 <= i < a0.srows() && 0 <= l < a0.scols() && (i != row1 || l < col) ==> #[trigger] a.at(i, l) == a0.at(i, l),
+        {
+            proof { a.index_law(row1, k); a.index_law(row2, k); a.read_law(); A::write_law(); }
+            a[(row1, k)] = __q_sub(&a[(row1, k)], &__q_mul(&a[(row2, k)], &f));
+        }
+
+        if let Some(x) = x {
+            let ghost x0 = *x;
+            for k in 0..x.nr_columns()
+                invariant same_shape(x0, *x), row1 < x0.srows(), row2 < x0.srows(),
+            {
+                proof { x.index_law(row1, k); x.index_law(row2, k); B::write_law(); }
+                x[(row1, k)] = __q_sub(&x[(row1, k)], &__q_mul(&x[(row2, k)], &f));
+            }
+        }
+    }
+    //@ end
+}
+
+// =====================================================================================================
 // VecMatrix
 // =====================================================================================================
 //@ begin src/geometry/vec_matrix.rs :: - :: struct VecMatrix
